@@ -162,6 +162,72 @@ def position_index(body, flow, fln, bi, t):
     return "index is the result of position() over the same collection, which nothing here shrinks"
 
 
+def enumerate_index(body, flow, fln, bi, t):
+    """`b[i]` where i is the counter of `a.iter().enumerate()`: in bounds when a IS b, or when a dominating `a.len() == b.len()` test lets control
+    reach the index only on its equal outcome — and nothing in the function shrinks b."""
+    if len(t["args"]) < 2:
+        return None
+    idx = op_place(t["args"][1])
+    coll = fln.canon_op(t["args"][0])
+    if idx is None or coll is None or idx["pr"]:
+        return None
+    ci = fln.canon_local(idx["l"])
+    fs = [e for e in ci[1] if e[0] == "f"]
+    nxt = None
+    for b2, t2 in body.calls():
+        if t2["dest"]["l"] == ci[0] and (t2.get("callee") or "").endswith("Iterator::next"):
+            nxt = (b2, t2)
+    # the counter is column 0 of the item of an Enumerate iterator
+    if nxt is None or len(fs) < 2 or str(fs[1][1]) != "0":
+        return None
+    itp = op_place(nxt[1]["args"][0])
+    if itp is None:
+        return None
+    ITER = ("slice::iter", "Deref::deref", "Vec::iter", "IntoIterator::into_iter", "Iterator::enumerate", "VecDeque::iter", "slice::iter_mut", "Vec::iter_mut", "DerefMut::deref_mut")
+    back = fln.backward({itp["l"]}, through_calls=ITER)
+    if not any("Enumerate<" in (body.local_ty(x) or "") for x in back):
+        return None
+    if any((t2.get("callee") or "").split("::")[-1] in ("skip", "step_by", "chain", "zip", "flat_map", "rev", "map") and t2["dest"]["l"] in back for _b, t2 in body.calls()):
+        return None
+    srcs = set()
+    for l in back:
+        for _b, si, d in fln.defs.get(l, []):
+            if si == "term":
+                if (d.get("callee") or "").split("::")[-1] in ("iter", "iter_mut", "into_iter", "deref", "deref_mut") and d["args"]:
+                    c = fln.canon_op(d["args"][0])
+                    if c:
+                        srcs.add(c)
+            elif d["rv"]["k"] == "ref":
+                srcs.add(fln.canon_place(d["rv"]["p"]))
+    srcs = {c for c in srcs if c[1] or c[0] <= body.mir["argc"] or body.local_name(c[0])}
+    for b2, t2 in body.calls():
+        if (t2.get("callee") or "").split("::")[-1] in SHRINKERS and t2["args"] and fln.canon_op(t2["args"][0]) == coll:
+            return None
+    if coll in srcs:
+        return "index is the enumerate() counter of an iteration over the same collection, which nothing here shrinks"
+    # a dominating length-equality test between the enumerated collection and the indexed one
+    from qvlib.paths import explore as ex
+
+    def len_of(o):
+        pl = op_place(o)
+        if not pl:
+            return None
+        for x in fln.sources(pl["l"]):
+            if x[0] == "call" and (x[2].get("callee") or "").split("::")[-1] == "len" and x[2]["args"]:
+                return fln.canon_op(x[2]["args"][0])
+        return None
+    for b2, si, st in body.stmts():
+        if st["k"] == "assign" and st["rv"]["k"] == "bin" and st["rv"]["op"] in ("Eq", "Ne") and body.dominates(b2, bi):
+            la, lb = len_of(st["rv"]["l"]), len_of(st["rv"]["r"])
+            if la is None or lb is None:
+                continue
+            if (la == coll and lb in srcs) or (lb == coll and la in srcs):
+                unequal = 0 if st["rv"]["op"] == "Eq" else 1
+                if ex(body, [b2], want="target", targets=[bi], force={(b2, si): unequal}) is None:
+                    return "index is the enumerate() counter of a collection whose length was tested equal to the indexed one's"
+    return None
+
+
 def guarded_bounds(body, flow, fln, bi, t):
     """the MIR bounds assert of a slice / array index `s[idx]` (ops = [len, idx]) under the same dominating `idx < s.len()` test that
     guarded_index recognises for Vec indexing."""
@@ -356,7 +422,7 @@ def collect_sinks(F, key, summ=None, params=None):
                     m in ("index", "index_mut") or "vec::Vec" in c or "vec_deque" in c or "slice" in c or "::str::" in c or "string::String" in c):
                 why = None
                 if m in ("index", "index_mut"):
-                    why = guarded_index(body, flow, fln, bi, t) or const_index_under_arity(body, flow, fln, bi, t) or position_index(body, flow, fln, bi, t)
+                    why = guarded_index(body, flow, fln, bi, t) or const_index_under_arity(body, flow, fln, bi, t) or position_index(body, flow, fln, bi, t) or enumerate_index(body, flow, fln, bi, t)
                     if why is None:
                         # constant index into a collection whose length was just checked is left to the census
                         pass
